@@ -357,7 +357,7 @@ impl Run {
                 continue;
             }
             for k in 0..2usize {
-                for _rep in 0..5 {
+                for rep in 0..(if k == 0 { 12usize } else { 4 }) {
                     let child = std::process::Command::new(&bin)
                         .arg(&self.id)
                         .arg("--tier")
@@ -365,7 +365,7 @@ impl Run {
                         .arg("--seed")
                         .arg(format!("{}", self.seed as i64))
                         .arg("--cold")
-                        .arg(format!("{}", k))
+                        .arg(format!("{}", k + 16 * rep))
                         .env("VERIF_ROOT", &self.root)
                         .stdout(std::process::Stdio::piped())
                         .stderr(std::process::Stdio::null())
@@ -398,7 +398,7 @@ impl Run {
             }
         }
         self.evaluations += ran;
-        self.generators.push(json!({"name": "fresh child processes: a stress pass run from 16 barrier-released threads as the first calls into the crate", "kind": "concurrent cold start (not schedule-controlled)", "cases": n, "children_that_ran_a_pass": ran, "note": "both build profiles x 2 passes x 5 repetitions; finds first-use races (lazily built state) only with the probability of the interleaving"}));
+        self.generators.push(json!({"name": "fresh child processes: a stress pass run from 16 barrier-released threads as the first calls into the crate", "kind": "concurrent cold start (not schedule-controlled)", "cases": n, "children_that_ran_a_pass": ran, "note": "both build profiles x (12 repetitions of the first stress pass + 4 of the second), each repetition starting on different items; finds first-use races (lazily built state) only with the probability of the interleaving"}));
         if let Some((_prof, v)) = failure {
             let clause = format!("{}.concurrent_cold_start", self.id);
             let msg = v["message"].as_str().unwrap_or("").to_string();
